@@ -10,5 +10,6 @@ CONSTANTS
   MaxTx = 1
   WithTry = TRUE
   WithNoRS = FALSE
+  WithCb = FALSE
 INVARIANTS ImplAgrees
 CHECK_DEADLOCK FALSE
